@@ -162,6 +162,13 @@ def run(tier):
     lines = gen_lines(rng, n)
     # corpus of earlier findings first
     lines[:6] = ["foo\t\r\n", "\t\r\n", "foo\t\t\r\n", "foo\tq\t\r\n", "/\t \r\n", "x\t\xa0\r\n"]
+    # very long first lines: the whole line decides, however long it is
+    for k, (n_, shape) in enumerate([(5000, "GET /%s HTTP/1.0\r\n"), (12000, "GET /%s HTTP/1.0\r\n"), (5000, "h /%s 0\r\n"), (9000, "/%s\t+\r\n"),
+                                     (4090, "GET /%s HTTP/1.0\r\n"), (4097, "/%s\t$\r\n"), (11000, "gemini://h/%s\r\n"), (8190, "HEAD /%s HTTP/1.1\r\n")]):
+        lines[6 + k] = shape % ("a" * n_)
+    # upper-case methods other than GET/HEAD and other HTTP look-alikes must still be claimed by somebody
+    lines[14:20] = ["POST / HTTP/1.1\r\n", "OPTIONS * HTTP/1.0\r\n", "CONNECT h:1 HTTP/1.1\r\n", "PUT /x HTTP/2\r\n", "DELETE /a HTTP/1.0\r\n",
+                    "TRACE / HTTP/1.1\r\n"]
     cases = []
     for i, line in enumerate(lines):
         tls = rng.random() < 0.4
@@ -180,6 +187,9 @@ def run(tier):
         waptop = "/wap" if rng.random() < 0.8 else rng.choice(["/w", "", "/wap/"])
         if i < 6:
             tls, plist, waptop = False, list(SHIPPED), "/wap"
+        elif i < 20:
+            plist, waptop = list(SHIPPED), "/wap"
+            tls = line.startswith("gemini") or (i % 2 == 1 and not line.startswith("h /"))
         data = (line + "".join(hdrs)).encode("utf-8", "surrogateescape")
         cases.append({"line": line, "hdrs": hdrs, "tls": tls, "plist": plist, "waptop": waptop,
                       "data": gen.lat(data)})
@@ -197,6 +207,11 @@ def run(tier):
         chk.count((c["line"], c["tls"], tuple(c["plist"]), tuple(c["hdrs"])),
                   nontrivial=o["cls"] not in ("GopherProtocol", "SecureGopherProtocol", None))
         # ---- oracle on the implementation ----
+        if o.get("line") is not None and o["line"] != c["line"]:
+            found = True
+            chk.violation({"what": "the connection handler classified something other than the whole first request line",
+                           "first_line_head": c["line"][:80], "first_line_length": len(c["line"]), "classified_length": len(o["line"]),
+                           "tls": c["tls"]}, tag="first-line-not-whole")
         if o["exc"]:
             dist["exceptions"] += 1
             found = True
